@@ -490,15 +490,20 @@ Section Concrete.
   Variable r : crules.
   Variable vfun : N -> list N -> bool.      (* regex_functor / uri_validator_functor number k *)
 
+  (* std::map semantics of the registrations, in the order of c_tags (an entry = add_tag(name, kind) unless kind is
+     TInvalid, then add_*_property(name, attribute, ...) for its attributes): tags[name].type = kind - a later add_tag
+     under a name that compares equal overwrites the type, add_property never changes it; tags[name].properties[pn] =
+     validator - all entries whose name compares equal feed one property map, a later registration of an attribute
+     name that compares equal overwrites the earlier one *)
+  Definition kind_set (k : tkind) : bool := match k with TInvalid => false | _ => true end.
   Definition find_tag (name : list N) :=
-    find (fun t => name_eq (c_xhtml r) (fst (fst t)) name) (c_tags r).
+    find (fun t => name_eq (c_xhtml r) (fst (fst t)) name && kind_set (snd (fst t))) (rev (c_tags r)).
+  Definition tag_props (tag : list N) : list (list N * vkind) :=
+    flat_map (fun t => if name_eq (c_xhtml r) (fst (fst t)) tag then snd t else []) (c_tags r).
   Definition find_prop (tag pn : list N) : option vkind :=
-    match find_tag tag with
+    match find (fun p => name_eq (c_xhtml r) (fst p) pn) (rev (tag_props tag)) with
+    | Some p => Some (snd p)
     | None => None
-    | Some t => match find (fun p => name_eq (c_xhtml r) (fst p) pn) (snd t) with
-                | Some p => Some (snd p)
-                | None => None
-                end
     end.
   Definition c_tag_kind (name : list N) : tkind :=
     match find_tag name with Some t => snd (fst t) | None => TInvalid end.
